@@ -550,7 +550,45 @@ fn mutate(rng: &mut Rng, s: &[u8]) -> Vec<u8> {
 
 /// strict parse: no whitespace tolerated by callers that need it; duplicate keys keep the last value
 fn parse_json(w: &[u8]) -> Option<Value> {
-    serde_json::from_slice::<Value>(w).ok()
+    match serde_json::from_slice::<Value>(w) {
+        Ok(v) => Some(v),
+        // a number such as 6E900106 is well-formed JSON that serde_json cannot represent: the text is
+        // replaced by a representable one for the well-formedness judgement
+        Err(e) if e.to_string().contains("number out of range") => {
+            let t = String::from_utf8_lossy(w).to_string();
+            let mut o = String::new();
+            let b: Vec<char> = t.chars().collect();
+            let mut i = 0;
+            let mut in_str = false;
+            while i < b.len() {
+                let c = b[i];
+                if in_str {
+                    o.push(c);
+                    if c == '\\' && i + 1 < b.len() {
+                        i += 1;
+                        o.push(b[i]);
+                    } else if c == '"' {
+                        in_str = false;
+                    }
+                } else if c == '"' {
+                    in_str = true;
+                    o.push(c);
+                } else if (c == 'e' || c == 'E') && i > 0 && b[i - 1].is_ascii_digit() {
+                    // drop the exponent
+                    i += 1;
+                    while i < b.len() && (b[i] == '+' || b[i] == '-' || b[i].is_ascii_digit()) {
+                        i += 1;
+                    }
+                    continue;
+                } else {
+                    o.push(c);
+                }
+                i += 1;
+            }
+            serde_json::from_str::<Value>(&o).ok().map(|_| Value::String("<unrepresentable number>".into()))
+        }
+        Err(_) => None,
+    }
 }
 
 pub fn fragment_case(rng: &mut Rng, out: &mut Out, prop: &str) {
@@ -1035,6 +1073,7 @@ pub fn extended_case(rng: &mut Rng, out: &mut Out) {
                     &format!("C06: output {:?} is not well-formed JSON", String::from_utf8_lossy(&text)),
                     format!("schema={schema} flexible_ws={flexible}"),
                 ),
+                Some(Value::String(u)) if u == "<unrepresentable number>" => out.count("extended_not_judged", 1),
                 Some(v) => match ext_valid(&schema, &schema, &v, 0) {
                     Some(false) => out.violation(
                         &format!("C06: output {} does not validate", String::from_utf8_lossy(&text)),
